@@ -50,3 +50,30 @@ package protocol
 //@   ensures err == nil && op.Type == operation.TypeCreate ==> rm.Doc == nil && !r0.Deactivated
 //@   ensures err == nil && op.Type != operation.TypeCreate ==> rm.Doc != nil
 //@   ensures err != nil ==> r0 == nil
+
+// ---- interfaces used by the observer and the document handler ----
+//@ ghost nsLookups int
+//@ iface ClientProvider.ForNamespace
+//@   results c, err
+//@   modifies nsLookups
+//@   ensures nsLookups == old(nsLookups) + 1
+//@   ensures err == nil ==> c != nil
+//@ ghost txnProcessed int
+//@ iface Version.TransactionProcessor
+//@   ensures result != nil
+//@ iface TxnProcessor.Process
+//@   modifies txnProcessed
+//@   ensures txnProcessed == old(txnProcessed) + 1
+//@ iface Version.Protocol
+//@   ensures result.MaxOperationCount == maxOps(this)
+//@ iface Version.DocumentValidator
+//@   ensures result != nil
+//@ iface Version.DocumentTransformer
+//@   ensures result != nil
+//@ iface DocumentValidator.*
+//@ iface DocumentTransformer.*
+//@ spec parseOK2(p OperationParser, ns string, buf bytes) bool
+//@ iface OperationParser.Parse
+//@   results op, err
+//@   ensures (err == nil) == parseOK2(this, namespace, operation)
+//@   ensures err == nil ==> op != nil && fresh(op)
